@@ -26,10 +26,39 @@ NPROC = int(os.environ.get("VERIF_NPROC", "16"))
 MAX_VIOL_PER_SHARD = 60
 
 
+_LAST_ACC = [None]
+
+
+def abortable(fn):
+    """Shard functions wrapped with this return what they had accumulated when the
+    process gives up after several confirmed hangs (mc.lib.impl.AbortShard), plus the
+    hangs themselves as violations."""
+    import functools
+
+    @functools.wraps(fn)
+    def wrapper(spec):
+        from .lib import impl, loaders
+        try:
+            return fn(spec)
+        except impl.AbortShard:
+            acc = _LAST_ACC[0] if _LAST_ACC[0] is not None else Acc()
+            acc.extra["aborted_shards"] += 1
+            have = {(v["case"].get("dialect"), v["case"].get("text")) for v in acc.violations}
+            for d, text in loaders.SPIN_LOG:
+                if (d, text) not in have:
+                    acc.violation({"generic": "spin", "dialect": d, "text": text}, "spin:" + d,
+                                  "load does not terminate: %r" % text[:120], sig="spin|%s|%s" % (d, text[:40]))
+            if hasattr(acc, "new"):
+                acc.new = []
+            return acc
+    return wrapper
+
+
 class Acc:
     """Mergeable accumulator returned by every shard."""
 
     def __init__(self):
+        _LAST_ACC[0] = self
         self.n = 0                 # executions of the real code
         self.nontrivial = 0        # distinct non-trivial cases (shards are disjoint)
         self.outcomes = collections.Counter()
@@ -73,7 +102,7 @@ class Acc:
 
 def _call(args):
     fn, spec = args
-    return fn(spec)
+    return abortable(fn)(spec)
 
 
 class Ctx:
@@ -84,6 +113,7 @@ class Ctx:
         self.t0 = time.time()
         self._pool = None
         self.notes = []
+        self.aborted = 0           # shards that gave up after repeated confirmed hangs
 
     @property
     def quick(self):
@@ -100,11 +130,16 @@ class Ctx:
         specs = list(specs)
         random.Random(self.seed).shuffle(specs)
         acc = into if into is not None else Acc()
+        if self.aborted:
+            return acc             # the code under test hangs: reported, the rest is skipped
         if NPROC <= 1 or len(specs) <= 1:
             for s in specs:
-                acc.merge(fn(s))
+                r = abortable(fn)(s)
+                self.aborted += r.extra.get("aborted_shards", 0)
+                acc.merge(r)
             return acc
         for r in self.pool().imap_unordered(_call, [(fn, s) for s in specs], chunksize):
+            self.aborted += r.extra.get("aborted_shards", 0)
             acc.merge(r)
         return acc
 
@@ -191,10 +226,12 @@ def write_replay(pid, tier, seed, v):
     return path
 
 
-def confirm_fresh(path):
+def confirm_fresh(path, hangs=False):
     """Re-execute the case once in a fresh interpreter: the same case must fail
     every time before it is reported."""
     env = dict(os.environ)
+    if hangs:
+        env["VERIF_WATCHDOG_S"] = "5"     # the run itself already waited the full time on a hang
     r = subprocess.run([os.path.join(HERE, "vcheck"), "--replay", path],
                        capture_output=True, text=True, env=env, timeout=600)
     return r.returncode == 1, (r.stdout + r.stderr)[-800:]
@@ -214,17 +251,26 @@ def run_check(pid, tier):
     vio_total = out.get("violations_total", len(vios))
     known = load_known().get(pid, {})
 
+    if os.environ.get("VERIF_DEBUG"):
+        print("debug: run phase %.1fs, %d violating cases" % (time.time() - t0, len(vios)), file=sys.stderr)
     # de-duplicate, shrink, classify
     by_sig = collections.OrderedDict()
     for v in vios:
         by_sig.setdefault(sig_of(v), v)
     new, hits = collections.OrderedDict(), collections.Counter()
     shrunk_budget = 40
+    hangs = bool(ctx.aborted) or any("spin" in v["diagnosis"].lower() for v in vios)
+    if hangs:
+        from .lib import impl, loaders
+        loaders.SPIN_LIMIT = 10 ** 9          # the parent only replays single cases
+        impl.ABORT_FLAG.value = 0
+        impl.WATCHDOG_S = min(impl.WATCHDOG_S, 3.0)
+        shrunk_budget = 0
     for s, v in by_sig.items():
         if s in known:
             hits[s] += 1
             continue
-        if shrunk_budget > 0:
+        if shrunk_budget > 0 and not (isinstance(v["case"], dict) and v["case"].get("generic")):
             shrunk_budget -= 1
             v2 = shrink(mod, v)
             s2 = sig_of(v2)
@@ -234,11 +280,14 @@ def run_check(pid, tier):
             new.setdefault(s2, v2)
         else:
             new.setdefault(s, v)
+    if os.environ.get("VERIF_DEBUG"):
+        print("debug: shrink done %.1fs" % (time.time() - t0), file=sys.stderr)
     exit_code = 0
     reported, unreproduced = [], []
-    for s, v in list(new.items())[:25]:
+    max_rep = 4 if hangs else 25
+    for s, v in list(new.items())[:max_rep]:
         path = write_replay(pid, tier, seed, v)
-        ok, tail = confirm_fresh(path)
+        ok, tail = confirm_fresh(path, hangs)
         if ok:
             reported.append(path)
             print("VIOLATION property=%s replay=%s" % (pid, path))
@@ -248,14 +297,21 @@ def run_check(pid, tier):
             unreproduced.append({"replay": path, "tail": tail[-300:]})
             print("WARNING: case did not reproduce in a fresh interpreter (state leaked "
                   "between executions?): %s" % path)
-    if len(new) > 25:
-        print("note: %d further distinct violating cases not written out" % (len(new) - 25))
+    if len(new) > max_rep:
+        print("note: %d further distinct violating cases not written out" % (len(new) - max_rep))
     for s, n in hits.items():
         fid, desc = known[s]
         print("KNOWN-FINDING: property=%s %s %s" % (pid, fid, desc))
 
     wall = time.time() - t0
     cov.setdefault("exhaustive", True)
+    if not cov.get("samples"):
+        cov["samples"] = [v["case"] for v in vios[:2]] or ["(no case completed)"]
+    if ctx.aborted:
+        cov["exhaustive"] = False
+        cov["aborted_shards"] = ctx.aborted
+        cov["note"] = (cov.get("note", "") + " %d shards stopped early after repeated confirmed hangs of "
+                       "the code under test; the run is not exhaustive." % ctx.aborted).strip()
     ev = {
         "property_id": pid, "tier": tier, "seed": seed, "level": mod.LEVEL,
         "coverage": cov,
@@ -317,7 +373,13 @@ def run_replay(path):
     body = json.load(open(path, encoding="utf-8"))
     pid = body["property"]
     mod = importlib.import_module("mc.props." + pid.lower())
-    vs = mod.replay(body["case"])
+    if body["case"].get("generic") == "spin":
+        from .lib import loaders
+        r = loaders.outcome(body["case"]["dialect"], body["case"]["text"])
+        vs = [{"case": body["case"], "diagnosis": "spin:" + body["case"]["dialect"],
+               "detail": "load does not terminate"}] if r[0] == "spin" else []
+    else:
+        vs = mod.replay(body["case"])
     print("replay %s property=%s" % (path, pid))
     print("  recorded : %s" % body.get("diagnosis"))
     if vs:
